@@ -48,10 +48,10 @@ struct PairPicker {
     template <class Map> Edge pick(Rng &r, unsigned n, const Map &present, bool directed, int wantPresent /* -1 any, 0 absent-ish, 1 present-ish */) {
         Edge e;
         unsigned roll = r.u(100);
-        if (hub >= 0 && (unsigned)hub < n && wantPresent != 1 && r.chance(1, 2)) {
+        if (hub >= 0 && (unsigned)hub < n && wantPresent != 1 && r.chance(2, 3)) {
             e.first = (VertexIndex)hub;
             e.second = r.u(n);
-            if (r.chance(1, 3)) std::swap(e.first, e.second);
+            if (r.chance(1, 5)) std::swap(e.first, e.second);
             last1 = e.first;
             last2 = e.second;
             return e;
@@ -60,6 +60,12 @@ struct PairPicker {
         if (usePresent) {
             auto it = present.begin();
             std::advance(it, r.u((unsigned)present.size()));
+            if (hub >= 0 && r.chance(1, 2)) {
+                // an edge of the hub, when there is one at or after a random position
+                auto jt = it;
+                for (unsigned hops = 0; jt != present.end() && hops < 64; ++jt, ++hops)
+                    if (jt->first.first == (VertexIndex)hub || jt->first.second == (VertexIndex)hub) { it = jt; break; }
+            }
             e = it->first;
             if (!directed && r.chance(1, 2)) std::swap(e.first, e.second);
         } else {
